@@ -38,7 +38,8 @@ def check(tier, seed):
     res.rule = ('NMEA sentences with correct/wrong/missing/non-hex/upper/lower-case checksums, nested "$", "*" in odd places, bytes '
                 '>= 128, UBX binary between sentences, CR/LF variants; thorough adds all strings of length <= 4 over 7 byte classes '
                 'before/inside/after a valid sentence; compared: frames_rx vs model, vs extracted count_sentences spec, vs a Python '
-                'transcription of the property text; non-trivial = stream contains "$"')
+                'transcription of the property text; every pair of 23 characters (hex digits, blanks, signs, CR/LF/TAB ...) as checksum field for bodies '
+                'with small and large XOR; every stream whole, cut in two (position rotating) and byte-wise; non-trivial = stream contains "$"')
     with C.WorkDir('C16') as wd:
         C.audit_sources()
         C.props_obligations(res, 'C16', wd)
@@ -60,17 +61,36 @@ def check(tier, seed):
                 streams.append((w + good, 'pre'))
                 streams.append((good + w + good, 'mid'))
                 streams.append((good[:4] + w + good[4:], 'inside'))
+        # checksum field: every pair of characters from an extended alphabet (hex digits of both cases, blanks, signs,
+        # CR/LF/TAB, prefixes that int(x, 16) would accept, other text) after '*', for bodies with small and large XOR
+        alpha = b'0159aAfFgG +-\r\n\t_xX.*$'
+        bodies = [b'AA', b'AB', b'AK', b'GPTXT,01,01,02,0w', b'AQ', b'Az', b'GPRMC,1', b'\x01', b'' ] if tier == 'quick' else \
+            [bytes([65, 65 ^ x]) for x in list(range(0, 20)) + [0x7f, 0xa5, 0xff]] + [b'GPTXT,01,01,02,0w', b'GPRMC,1', b'']
+        for body in bodies:
+            for c1 in alpha:
+                for c2 in alpha:
+                    streams.append((b'$' + body + b'*' + bytes([c1, c2]) + b'\r\n' + good, 'chkfield'))
         res.exhaustive = True
         res.notes['exhaustive_part'] = f'all strings of length <= {L} over 7 byte classes before / between / inside valid sentences'
         cases = []
-        for s, kind in streams:
-            impl = C.guarded(G.impl_nmea, [('P', s)])
+        for idx, (s, kind) in enumerate(streams):
             ref = f'rx={count_ref(s)}'
+            # every stream whole; additionally byte-wise and cut at every position (rotating through the streams)
+            variants = [('whole', [s])]
+            if kind != 'chkfield' or idx % 7 == 0:
+                variants.append(('bytes', [s[k:k + 1] for k in range(len(s))]))
+            cut = idx % (len(s) + 1)
+            variants.append((f'cut@{cut}', [s[:cut], s[cut:]]))
+            for cname, parts in variants:
+                ops = [('P', p) for p in parts]
+                impl = C.guarded(G.impl_nmea, ops)
+                desc = {'stream_hex': C.hexs(s), 'kind': kind, 'chunking': cname}
+                if impl != ref:
+                    res.violation('NMEA counter differs from the number of valid sentences in the stream',
+                                  {'property': 'C16', 'input': desc, 'expected': ref, 'implementation_says': impl}, 'c16|' + C.hexs(s)[:200] + cname)
+                cases.append(Case('nmea-count', G.nmea_cmd(ops), impl, desc, nontrivial=b'$' in s, kind=kind + '/' + cname.split('@')[0]))
+            impl = C.guarded(G.impl_nmea, [('P', s)])
             desc = {'stream_hex': C.hexs(s), 'kind': kind}
-            if impl != ref:
-                res.violation('NMEA counter differs from the number of valid sentences in the stream',
-                              {'property': 'C16', 'input': desc, 'expected': ref, 'implementation_says': impl}, 'c16|' + C.hexs(s)[:200])
-            cases.append(Case('nmea-count', G.nmea_cmd([('P', s)]), impl, desc, nontrivial=b'$' in s, kind=kind))
             cases.append(Case('nmea-count-spec', 'nmeacount ' + C.hexs(s), impl[3:] if impl.startswith('rx=') else impl, desc, nontrivial=False, kind=kind + '-spec'))
         res.compare(cases)
         res.oblige('correspondence NmeaParser (Tie A)', not res.disagreements)
